@@ -28,11 +28,11 @@ def top_level_rows(text):
         code = P.strip_strings(line)
         if code is None:
             return []
-        if depth == 0 and r in ok and r > 1 and line.strip() != "" and not re.search(r"\b(if|unless|while|until|rescue)\b", code.split("#")[0][1:] if False else ""):
+        if depth == 0 and r in ok and r > 1 and line.strip() != "" and not re.match(r"\s*(end\b|[\}\]\)])", line) and not re.search(r"\b(if|unless|while|until|rescue)\b", code.split("#")[0][1:] if False else ""):
             rows.append(r)
         if END.search(code):
             depth = max(0, depth - 1)
-        elif OPEN.search(code) and not re.search(r"\bend\s*$", code) and "=" not in code.split("def")[0][-3:]:
+        elif OPEN.search(code) and not re.search(r"\bend\s*$", code) and not ("def" in code and "=" in code.split("def")[0][-3:]):
             depth += 1
     return rows
 
